@@ -53,7 +53,7 @@ Theorem C07_partial :
     tree_dom gen_cfg gen_facts (map cols inputs) t = true ->
     spark_eval inputs t = Some F ->
     exists G, sql_eval gen_cfg gen_facts inputs t = Some G /\ cols G = cols F /\ Permutation (rows G) (rows F).
-Proof. exact (sql_eval_total_correct gen_cfg gen_facts gen_cfg_ok gen_limit_ok gen_facts_ok). Qed.
+Proof. intros t inputs F. exact (sql_eval_total_correct gen_cfg gen_facts gen_cfg_ok gen_limit_ok gen_facts_ok inputs t F). Qed.
 Print Assumptions C07_partial.
 
 Theorem C07_compiler_total :
